@@ -603,6 +603,8 @@ def _masky(node: ast.AST) -> bool:
         return _masky(node.operand)
     if isinstance(node, ast.BinOp) and isinstance(node.op, ast.Sub):
         return _masky(node.right) and _number(node.left) is not None
+    if isinstance(node, ast.IfExp):
+        return _masky(node.body) and _masky(node.orelse)
     if isinstance(node, ast.Compare) and len(node.ops) == 1 and isinstance(node.ops[0], (ast.Eq, ast.NotEq, ast.Gt)) \
             and _masky(node.left) and _number(node.comparators[0]) is not None:
         return True                                  # `(mask != 0)`, `(mask == 0)`, `(mask > 0)`
